@@ -299,9 +299,42 @@ func buildDocx(alpha []docxKind, seq []int, o docxOpt) docxCase {
 	if st == 3 {
 		fs["tbl-tbl-p"] = true
 	}
+	// structural tag: a table with a nested table, later a paragraph, later a body-level table
+	st = 0
+	for _, b := range c.doc.Body {
+		switch t := b.(type) {
+		case docxw.Table:
+			if st == 2 {
+				st = 3
+			}
+			if st == 0 && hasNestedTable(t) {
+				st = 1
+			}
+		case docxw.Para:
+			if st == 1 {
+				st = 2
+			}
+		}
+	}
+	if st == 3 {
+		fs["nested-tbl-p-tbl"] = true
+	}
 	if firstItemNested(c.x.blocks) {
 		fs["first-item-nested"] = true
 	}
 	c.shape = sortedKeys(fs)
 	return c
+}
+
+func hasNestedTable(t docxw.Table) bool {
+	for _, r := range t.Rows {
+		for _, c := range r.Cells {
+			for _, b := range c.Blocks {
+				if _, ok := b.(docxw.Table); ok {
+					return true
+				}
+			}
+		}
+	}
+	return false
 }
